@@ -27,7 +27,8 @@ UNIT = dict(
         ("struct", "Bulkhead", "service"),
     ],
     frame=[
-        dict(name="semaphore_never_closed_or_resized", tags=["C07"], pattern=r"\.\s*(close|add_permits|forget_permits|forget)\s*\(",
-             glob=BH + "**/*.rs", only_in=[], min_hits=0),
+        # a breach contradicts the mechanism directly (the semaphore no longer has exactly max_concurrent_calls permits): reported as a violation
+        dict(name="semaphore_never_closed_or_resized", tags=["C01", "C07"], pattern=r"\.\s*(close|add_permits|forget_permits|forget)\s*\(",
+             glob=BH + "**/*.rs", only_in=[], min_hits=0, violation=True),
     ],
 )
